@@ -264,6 +264,8 @@ def expr_text(e, ctx=None):
                 # parameters / comprehension variables named like template variables: local to the expression
                 "pyprefix": "python: %s", "pyprefix2": "python:%s",
                 # line breaks that mean something: inside a string literal, at the end of a comment
+                # assignment expressions: on the name x (only where never reached), on a name nothing else uses
+                "walrusx": "(x := %s)", "walrusw": "(w_ := %s)",
                 "nlstr": "(%s if '''x\ny''' == 'x\\ny' else None)", "nlcomment": "(%s # note\n    )",
                 "compx": "[x for x in (%s,)][0]", "genx": "list(x for x in (%s,))[0]", "lamdef": "(lambda y=%s: y)()",
                 "nestlam": "(lambda x: (lambda y, x=x: x)(x))(%s)", "lamkw": "(lambda *x, **y: x[0])(%s)"}[e["w"]] % inner
